@@ -133,7 +133,35 @@ func init() {
 	stubs["(*math/big.Int).Set"] = un(func(z, x *big.Int) { z.Set(x) })
 	stubs["(*math/big.Int).Neg"] = un(func(z, x *big.Int) { z.Neg(x) })
 	stubs["(*math/big.Int).Abs"] = un(func(z, x *big.Int) { z.Abs(x) })
-	stubs["(*math/big.Int).Add"] = bin(func(z, x, y *big.Int) { z.Add(x, y) })
+	addConcrete := bin(func(z, x, y *big.Int) { z.Add(x, y) })
+	stubs["(*math/big.Int).Add"] = func(fr *frame, args []value) value {
+		i := fr.i
+		z, x, y := args[0].(*value), args[1].(*value), args[2].(*value)
+		if !bigIsSym(x) && !bigIsSym(y) {
+			return addConcrete(fr, args)
+		}
+		// symbolic, non-negative operands: one wide addition, split into words
+		// (the magnitude is not normalised, like every symbolic big.Int here)
+		if (*x).(structure)[0] != false || (*y).(structure)[0] != false {
+			panic(unsupported("Add of negative symbolic big.Int"))
+		}
+		nx, ny := len((*x).(structure)[1].([]value)), len((*y).(structure)[1].([]value))
+		n := nx
+		if ny > n {
+			n = ny
+		}
+		n++
+		w := 64 * n
+		sum := i.cx.Add(i.bigWide(x, w), i.bigWide(y, w))
+		words := make([]value, n)
+		for k := 0; k < n; k++ {
+			words[k] = fromTerm(i.cx.Extract(sum, 64*k+63, 64*k), types.Uint)
+		}
+		zs := (*z).(structure)
+		zs[0] = false
+		zs[1] = words
+		return z
+	}
 	stubs["(*math/big.Int).Sub"] = bin(func(z, x, y *big.Int) { z.Sub(x, y) })
 	stubs["(*math/big.Int).Mul"] = bin(func(z, x, y *big.Int) { z.Mul(x, y) })
 	stubs["(*math/big.Int).Mod"] = bin(func(z, x, y *big.Int) { z.Mod(x, y) })
